@@ -4,7 +4,7 @@
 From Coq Require Import List NArith Bool String Lia.
 From Verif Require Import Lib.Bytes Sni.Wire Sni.WireProofs Sni.WireGen Gen.WireSchema.
 From Verif Require Import Sni.Hello Sni.Stream Sni.StreamClose Sni.ReadBuf Sni.ReadBufProofs
-  Sni.ReadHold Sni.ReadHoldProofs
+  Sni.ReadHold Sni.ReadHoldProofs Sni.PendingAge Sni.PendingAgeProofs
   Gen.StreamConsts Gen.HelloConsts.
 Import ListNotations.
 Local Open Scope N_scope.
@@ -50,6 +50,24 @@ Proof. split; reflexivity. Qed.
 
 Lemma gen_read_hold_none : hold_of gen_read_held = HoldNone /\ hold_of gen_write_held = HoldNone.
 Proof. split; reflexivity. Qed.
+
+(** The send arm of transport.serve looks up and deletes only the entry
+    under the id it has just handed out: no entry is dropped because of its
+    distance to the newest id. *)
+Lemma gen_pending_evict_same_id : evict_of gen_pending_evict_keys = EvictSameId.
+Proof. reflexivity. Qed.
+
+Local Open Scope string_scope.
+(** The numeric bounds (integer literals >= 256, durations aside) in the files
+    of the RPC path are the known ones: the 1 MiB cap of a read request.  A new
+    bound - a window, a cap, a pool size - shows up here, and the streams size
+    themselves along the emitted values. *)
+Definition known_rpc_int_literals : list string := ["endpoint_server.go:1048576"].
+
+Lemma gen_rpc_int_literals_known :
+  list_eqb String.eqb gen_rpc_int_literals known_rpc_int_literals = true.
+Proof. vm_compute. reflexivity. Qed.
+Local Close Scope string_scope.
 
 Lemma gen_read_buf_policy : policy_of gen_read_buf = Some BFresh.
 Proof. reflexivity. Qed.
